@@ -302,3 +302,7 @@ Definition block_lines (pfx : list str) (body : list str) (sfx : list str) : lis
   (match sfx with [] => [] | _ => [$"##!=>"] end) ++ flat_map (fun s => [s; $"##!=>"]) sfx ++ [$"##!<"].
 (* an ordinary entry line that is its own left-trimmed form *)
 Definition reg_fixed (ordp : list pname) (l : str) : Prop := is_regular ordp l = true /\ trim_left is_blank l = l.
+
+(* what replaceSuffixes makes of handed-over entries, the pair map iterated in the order [ords] *)
+Definition rewritten (ords : smap -> smap) (ps : smap) (ls : list str) : list str :=
+  map (fun e => if skip_entry e then e else apply_pairs (ords ps) e) ls.
